@@ -36,6 +36,12 @@ def make_state(r, fam, S, n):
             row = [r.choice([0.0, r.uniform(95, 105), 99.999, 100.0, 100.001]) for _ in range(n)]
         elif fam == "large":
             row = [r.choice([0.0, r.uniform(200, 5000), 10 ** r.uniform(3, 6)]) for _ in range(n)]
+        elif fam == "twins":
+            # every species gets the SAME amounts in the same cells: their draws are still independent of one another
+            if s == 0:
+                twin_row = [r.uniform(3.0, 30.0) for _ in range(n)]
+                make_state.twin_row = twin_row
+            row = list(make_state.twin_row)
         elif fam == "wide-4096":
             row = [r.choice([0.0, 0.0, r.uniform(0.05, 8.0), float(r.randint(1, 9))]) for _ in range(n)]
         elif fam == "dilute-wide":
@@ -67,11 +73,16 @@ def build(sd, idx):
     kind_ = r.choice(engines.KINDS)
     mode = r.choice(MODES)
     fam = r.choice(["below-one", "integers", "fractional", "around-100", "large", "sparse", "sparse", "fractional"])
+    if idx % 40 == 29:
+        fam = "twins"
+        mode = "Poisson"
     if idx % 400 == 11:
         fam = "wide-4096"
     elif idx % 400 == 211:
         fam = "dilute-wide"
     S = r.randint(1, 5)
+    if fam == "twins":
+        S = r.randint(2, 4)
     if fam in ("wide-4096", "dilute-wide"):
         S = r.randint(1, 2)
         if r.random() < 0.75:
@@ -125,7 +136,7 @@ def build(sd, idx):
 
 
 def setup_and_read(kind_, script, S, n):
-    e = engines.get(kind_)
+    e = simhelp.kept_engine(kind_)
     e.setup(script)
     out = e.get_output()
     e.finalize()
@@ -246,6 +257,24 @@ def run_case(case):
                 if 0 < lam <= 2000:
                     obs.append((float(x0[k]), lam, vr.random()))
             cnt("poisson_entries_observed", len(obs))
+            if fam == "twins":
+                # independence between species: with equal means, two species' draws coincide in one cell with probability
+                # sum_k pmf(k)^2 (about 1 / (2 sqrt(pi lambda))); that they coincide in EVERY cell has the product of these
+                # probabilities - judged when that product is below 1e-13
+                logp = 0.0
+                for i_ in range(n):
+                    lam = recv[i_]
+                    if lam > 0:
+                        pe = sum(stats.poisson_pmf_cdf(k_, lam)[1] ** 2 for k_ in range(int(lam + 12 * math.sqrt(lam) + 20)))
+                        logp += math.log(min(1.0, pe))
+                if logp < math.log(1e-13):
+                    cnt("poisson_independence_checks")
+                    rows = [x0[s_ * n:(s_ + 1) * n].tolist() for s_ in range(S)]
+                    for s_ in range(1, S):
+                        if rows[s_] == rows[0]:
+                            bad.append({"what": "Poisson mode: two species with equal amounts got identical draws in every cell (the entries are not drawn independently)",
+                                        "species": [0, s_], "cells": n, "log_probability_of_coincidence": logp, "draws_head": rows[0][:8], **ctx})
+                            break
     key = chash([idx, kind_, mode, fam, S, n, sp])
     return {"key": key, "nontrivial": S >= 2 and n >= 2 and S != n, "counts": counts, "bad": bad[:4], "obs": obs,
             "sample": {"seed": sd, "idx": idx, "engine": kind_, "mode": mode, "family": fam, "species": S, "cells": n, "space": sp,
